@@ -4,7 +4,7 @@ PROP = {
             "(unit-test corpus, corner trees, random trees with depth/fan-out/empty files/empty dirs/one-byte files/unicode names, files of several "
             "32 KiB buffers) with independent random read sizes and write segmentations; all subsets of the interesting cut positions and every "
             "single cut for tiny trees; files shrunk/grown between scan and read; explicit entries with odd announced sizes; damaged and hand-made "
-            "writer streams; non-trivial = more than one entry is read, or a write segmentation cuts inside a header or exactly at an entry/header "
+            "writer streams; every caller buffer is ONE reused array scribbled over between calls (reader: before each Read; writer: after each writeAll), and one write per tree goes through io.CopyBuffer into a bufio.Writer with independent sizes; non-trivial = more than one entry is read, or a write segmentation cuts inside a header or exactly at an entry/header "
             "boundary, or the case belongs to the size/shrink/damaged-stream families; distinct = distinct input line",
     "trusted": ["modelled, not verified: zlib+base64+JSON coding of the header line (abstract hdr/parse with parse(hdr m) = m and no newline in hdr m; "
                 "the harness passes the real header strings as the lookup table), the file system (abstract tree: MkdirAll / O_CREATE|O_TRUNC semantics), "
